@@ -15,6 +15,7 @@ var Registry = map[string]func(tier string) int{
 	"C05": C05,
 	"C06": C06,
 	"C07": C07,
+	"C08": C08,
 	"C09": C09,
 	"C10": C10,
 	"C11": C11,
